@@ -496,6 +496,7 @@ type FuncSpec struct {
 	Asserts  []AnchoredClause
 	Uses     []string // axioms of other packages visible here: "pkg.label"
 	Implements string // interface method whose contract this function must satisfy (refinement by identity)
+	PerSite  map[string]bool // ensures labels checked at every return site separately (before the states are merged)
 }
 
 type Pred struct {
@@ -535,7 +536,7 @@ var specKeywords = map[string]bool{
 	"decreases": true, "pred": true, "props": true, "safety": true, "inline": true,
 	"trusted": true, "pure": true, "protected": true, "moninv": true, "ghost": true,
 	"axiom": true, "note": true, "params": true, "results": true, "at": true, "havoc": true,
-	"unroll": true, "implements": true, "uses": true, "monghost": true,
+	"unroll": true, "implements": true, "uses": true, "monghost": true, "persite": true,
 }
 
 func loadSpecs(files []string) (*Specs, error) {
@@ -750,6 +751,13 @@ func (sp *Specs) loadFile(path string) error {
 			cur.Safety = append(cur.Safety, strings.Fields(stripComment(d.text))...)
 		case "inline":
 			cur.Inline = true
+		case "persite":
+			if cur.PerSite == nil {
+				cur.PerSite = map[string]bool{}
+			}
+			for _, f := range strings.Fields(stripComment(d.text)) {
+				cur.PerSite[f] = true
+			}
 		case "trusted":
 			cur.Trusted = true
 		case "pure":
